@@ -380,6 +380,27 @@ def run(tier: str, seed: int) -> Result:
       r0 = rng.random()
       if r0 < 0.2:
         old, diff, kind = hand_assembled(rng)
+      elif 0.2 <= r0 < 0.25:
+        # a NEW value (and a new shared value) whose unset / set arguments carry two, three or four tags each
+        tags3 = rng.sample(l2.TAGS, rng.choice([2, 3, 3, 4]))
+        fresh = rng.choice([fdl.Config, fdl.Partial])(l2.Ka)
+        for tg in tags3:
+          fdl.add_tag(fresh, "p", tg)
+        if rng.random() < 0.5:
+          fresh.q = rng.randint(0, 9)
+          for tg in rng.sample(l2.TAGS, 3):
+            fdl.add_tag(fresh, "q", tg)
+        old = fdl.Config(l2.fd, x=fdl.Config(l2.Kb, p=1), k=rng.randint(0, 5))
+        new = copy.deepcopy(old)
+        new.x = fresh
+        if rng.random() < 0.6:
+          new.y = [fresh, rng.randint(0, 9)]
+        kind = "new-value-many-tags"
+        try:
+          diff = diffing.build_diff(old, new)
+        except Exception as e:  # pylint: disable=broad-except
+          res.count("build_diff-raised:" + type(e).__name__)
+          continue
       elif 0.3 <= r0 < 0.38:
         # a sub-tree is MOVED (argument renamed / re-attached) or its holder REPLACED as a whole (another
         # Buildable type cannot be aligned), while something strictly below it is only tagged or is re-used
